@@ -66,6 +66,26 @@ pub fn build_pass_1(
     })
 }
 
+/// Move the location counter, refusing to leave the memory the segment lives in
+fn advance(
+    address: u32,
+    size: u64,
+    limit: u64,
+    t: SegmentType,
+    line: &CodePoint,
+) -> Result<u32, Error> {
+    let end = address as u64 + size;
+    if end > limit {
+        bail!(
+            "{} segment exceeds the memory of the device by {}, {}",
+            t,
+            end - limit,
+            line
+        );
+    }
+    Ok(end as u32)
+}
+
 fn pass_1_internal(
     segment: &Segment,
     address: u32,
@@ -79,6 +99,18 @@ fn pass_1_internal(
         }
         segment.address
     };
+
+    // first address behind the memory this segment lives in (words for flash, bytes otherwise);
+    // checked here so that nothing is ever padded or reserved beyond it
+    let device = common_context.get_device();
+    let limit = match segment.t {
+        SegmentType::Code => device.flash_size as u64,
+        SegmentType::Eeprom => device.eeprom_size as u64,
+        SegmentType::Data => device.ram_start as u64 + device.ram_size as u64,
+    };
+    if let Some((line, _)) = segment.items.first() {
+        advance(current_offset, 0, limit, segment.t, line)?;
+    }
 
     let mut out_items = vec![];
     let mut cur_address = current_offset;
@@ -99,7 +131,13 @@ fn pass_1_internal(
             }
             Item::Instruction(op, _) => match segment.t {
                 SegmentType::Code => {
-                    cur_address += op.info(common_context).len;
+                    cur_address = advance(
+                        cur_address,
+                        op.info(common_context).len as u64,
+                        limit,
+                        segment.t,
+                        line,
+                    )?;
                     out_items.push((*line, item.clone()));
                 }
                 _ => bail!(
@@ -115,7 +153,7 @@ fn pass_1_internal(
                 DataDefine::Db => {
                     let mut items = items.clone();
 
-                    cur_address += match segment.t {
+                    let size = match segment.t {
                         SegmentType::Code => {
                             (if items.actual_len() % 2 == 1 {
                                 items.push(Operand::E(Expr::Const(0x0)));
@@ -128,6 +166,7 @@ fn pass_1_internal(
                         SegmentType::Eeprom => items.actual_len() as u32,
                         _ => bail!(".db are not allowed in data segment, {}", line),
                     };
+                    cur_address = advance(cur_address, size as u64, limit, segment.t, line)?;
 
                     out_items.push((*line, Item::Data(DataDefine::Db, items)));
                 }
@@ -138,18 +177,22 @@ fn pass_1_internal(
                         DataDefine::Dq => 8,
                         _ => 0,
                     };
-                    cur_address += match segment.t {
+                    let size = match segment.t {
                         SegmentType::Code => items.len() as u32 * (item_size / 2),
                         SegmentType::Eeprom => items.len() as u32 * item_size,
                         _ => bail!(".dw are not allowed in data segment, {}", line),
                     };
+                    cur_address = advance(cur_address, size as u64, limit, segment.t, line)?;
 
                     out_items.push((*line, item.clone()));
                 }
             },
             Item::ReserveData(size) => match segment.t {
                 SegmentType::Data | SegmentType::Eeprom => {
-                    cur_address += *size as u32;
+                    if *size < 0 {
+                        bail!(".byte cannot reserve {} bytes, {}", size, line);
+                    }
+                    cur_address = advance(cur_address, *size as u64, limit, segment.t, line)?;
                     if segment.t == SegmentType::Eeprom {
                         out_items.push((*line, item.clone()));
                     }
